@@ -149,6 +149,14 @@ class M22(torch.nn.Module):
 Img22 = Annotated[torch.Tensor, dltype.FloatTensor["b c"]]
 Out22 = Annotated[torch.Tensor, dltype.FloatTensor["b c"]]
 
+GATE23 = torch.full((1, 4), 0.5)
+
+class M23(torch.nn.Module):
+    # a hinted parameter left at its (tensor) DEFAULT: the default is an argument like any other
+    DEC
+    def forward(self, x: Annotated[torch.Tensor, dltype.FloatTensor["b c"]], gate: Annotated[torch.Tensor, dltype.FloatTensor["b c"]] = GATE23) -> Annotated[torch.Tensor, dltype.FloatTensor["b c"]]:
+        return x * gate
+
 class M8(torch.nn.Module):
     DEC
     def forward(self, x: Annotated[torch.Tensor, dltype.FloatTensor["b c"]], m: Optional[Annotated[torch.Tensor, dltype.FloatTensor["b c"]]] = None) -> Annotated[torch.Tensor, dltype.FloatTensor["b c"]]:
@@ -220,6 +228,7 @@ def family():
         "M19": ((r(2, 5),), (r(2, 3),)),
         "M20": ((torch.zeros(0, 3 * (2**24 + 1)),), None),   # an axis longer than float32 counts exactly (no memory: the other axis is 0)
         "M21": ((r(2, 3),), (r(2, 3, 1),)),                  # the receiver is not called `self`
+        "M23": ((r(1, 4),), (r(2, 4),)),                     # (x alone conforms either way: it is the default of `gate`, (1, 4), that disagrees on b)
         "M22": ((r(2, 3),), (r(2, 6),)),                     # (the bad input satisfies the parameter hint: only the RESULT violates — 4 of 6 channels kept)
     }
     return dec_ns, und_ns, inputs
